@@ -96,6 +96,7 @@ func RangeChan[T any](site string, ch <-chan T) iter.Seq[T] {
 // SelCase is one communication clause of a rewritten select statement.
 type SelCase interface {
 	try() bool
+	peek() bool // would try succeed? (approximation by channel length; probes only)
 	rcase() reflect.SelectCase
 	done(v reflect.Value, ok bool)
 }
@@ -122,6 +123,8 @@ func (c *RecvC[T]) try() bool {
 		return false
 	}
 }
+
+func (c *RecvC[T]) peek() bool { return c.ch != nil && len(c.ch) > 0 }
 
 func (c *RecvC[T]) rcase() reflect.SelectCase {
 	if c.ch == nil {
@@ -160,6 +163,8 @@ func (c *SendC[T]) try() bool {
 		return false
 	}
 }
+
+func (c *SendC[T]) peek() bool { return c.ch != nil && len(c.ch) < cap(c.ch) }
 
 func (c *SendC[T]) rcase() reflect.SelectCase {
 	if c.ch == nil {
@@ -214,7 +219,20 @@ func Select(site string, hasDefault bool, cases ...SelCase) int {
 	}
 	t.Park(site, nil)
 	if n > 0 {
-		start := t.sim.tape.S.Draw(n)
+		// Rotating start: the tape picks an offset and a per-task counter is
+		// added, so that an all-zero (shrunk) tape still alternates between
+		// ready clauses instead of starving one for ever - a schedule that
+		// Go's uniformly random select produces with probability zero.
+		start := selectStart(t, n)
+		ready := 0
+		for i := 0; i < n; i++ {
+			if cases[i].peek() {
+				ready++
+			}
+		}
+		if ready > 1 {
+			t.sim.probes[pSelectMultiReady]++
+		}
 		for i := 0; i < n; i++ {
 			k := (start + i) % n
 			if cases[k].try() {
@@ -226,6 +244,12 @@ func Select(site string, hasDefault bool, cases ...SelCase) int {
 		return -1
 	}
 	return blockingSelect(t, site, cases)
+}
+
+//go:norace
+func selectStart(t *Task, n int) int {
+	t.selCount++
+	return (t.sim.tape.S.Draw(n) + t.selCount) % n
 }
 
 //go:norace
